@@ -27,7 +27,7 @@ import (
 )
 
 type xStep struct {
-	Op     string `json:"op"`   // open | release
+	Op     string `json:"op"`   // open | release | srv | expire
 	Node   string `json:"node"` // A | B
 	Who    string `json:"who"`  // L | T | S | X | none
 	Mid    string `json:"mid"`  // m1 | m2 | none
@@ -90,6 +90,18 @@ func runXnode(in xIn) (out xOut) {
 			tunID = append(tunID, pad(24)+fmt.Sprintf("%d", k))
 		case "+x":
 			tunID = append(tunID, tunID[k-1]+"-x")
+		case "+|x": // the previous id followed by the separator the TargetReady message uses
+			tunID = append(tunID, tunID[k-1]+"|x")
+		case "63", "64", "65", "100":
+			n := map[string]int{"63": 63, "64": 64, "65": 65, "100": 100}[sh]
+			tunID = append(tunID, pad(n))
+		case "cut63+x", "cut64+x", "cut65+x": // the first N bytes of the previous id, plus "-x"
+			n := map[string]int{"cut63+x": 63, "cut64+x": 64, "cut65+x": 65}[sh]
+			prev := tunID[k-1]
+			if n > len(prev) {
+				n = len(prev)
+			}
+			tunID = append(tunID, prev[:n]+"-x")
 		default:
 			panic("bad tid shape " + sh)
 		}
@@ -222,6 +234,9 @@ func runXnode(in xIn) (out xOut) {
 			id, err := wA.fx.Session.StartServerTunnel(maps["m3"].ID, sf)
 			must(err)
 			tunID[st.Tun] = id
+		case "expire":
+			// the waiting-tunnel record of the id reaches its TTL (30 s in production): any tunnel older than that
+			_ = wA.routing.RemoveWaitingTunnel(context.Background(), tunID[st.Tun])
 		case "release":
 			o := opens[st.Step]
 			if o == nil || !o.gated {
